@@ -22,6 +22,7 @@ pub mod c16;
 pub mod c17;
 pub mod c18;
 pub mod c19;
+pub mod c20;
 
 pub fn run(id: &str, tier: Tier, seed: u64) -> Option<i32> {
     Some(match id {
@@ -44,6 +45,7 @@ pub fn run(id: &str, tier: Tier, seed: u64) -> Option<i32> {
         "C17" => c17::run(tier, seed),
         "C18" => c18::run(tier, seed),
         "C19" => c19::run(tier, seed),
+        "C20" => c20::run(tier, seed),
         _ => return None,
     })
 }
@@ -64,6 +66,7 @@ pub fn replay(prop: &str, case: &serde_json::Value) -> Result<u64, String> {
             c10::replay(case)
         }
         "c16-history" => c16::replay(case),
+        "c20-parity" | "c20-history" | "c20-pair" | "c20-panic" => c20::replay(case),
         "c19-sequence" | "c19-pair" => c19::replay(case),
         "c18-schedule" | "c18-first-use" | "c18-free-running" => c18::replay(case),
         "c17-text" | "c17-step" | "c17-builtin" => c17::replay(case),
